@@ -13,7 +13,7 @@ package schema
 
 //@ abstract tid(t Type) TypeID
 //@ interface Type.TypeID(this) -> res
-//@   ensures res == tid(this)
+//@   names res == tid(this)
 //@   assigns nothing
 
 // ---------------------------------------------------------------------------------------------
@@ -551,6 +551,8 @@ package schema
 
 //@ func ConstraintErrorAddPathSegment(err, pathSegment) -> res
 //@   names res == addedSeg(err, pathSegment)
+//@   assigns ceOf(err).Path
+//@   ensures ceOf(res) == ceOf(err)
 //@   ensures ceOf(err) == nil ==> res == err
 //@   ensures ceOf(err) != nil ==> typeOf(res) == type(*ConstraintError) && res.(*ConstraintError) == ceOf(err) && pathPrepended(ceOf(err), pathSegment, old(ceOf(err).Path))
 //@   ensures (res == nil) == (err == nil)
@@ -774,3 +776,30 @@ package schema
 //@   loop 2 invariant selfApplied(step.InputValue) && (forall o string :: o in visited ==> selfApplied(step.OutputsValue[o].SchemaValue)) && (forall k string :: k in $visited1 && s.StepsValue[k] != step ==> stepLinked(s.StepsValue[k]))
 //@   loop 3 invariant selfApplied(step.InputValue) && (forall o string :: o in step.OutputsValue ==> selfApplied(step.OutputsValue[o].SchemaValue)) && (forall g string :: g in visited ==> selfApplied(step.SignalHandlersValue[g].DataSchemaValue)) && (forall k string :: k in $visited1 && s.StepsValue[k] != step ==> stepLinked(s.StepsValue[k]))
 //@   loop 4 invariant selfApplied(step.InputValue) && (forall o string :: o in step.OutputsValue ==> selfApplied(step.OutputsValue[o].SchemaValue)) && (forall g string :: g in step.SignalHandlersValue ==> selfApplied(step.SignalHandlersValue[g].DataSchemaValue)) && (forall g string :: g in visited ==> selfApplied(step.SignalEmittersValue[g].DataSchemaValue)) && (forall k string :: k in $visited1 && s.StepsValue[k] != step ==> stepLinked(s.StepsValue[k]))
+
+// ---------------------------------------------------------------------------------------------
+// C12 / C13: frame. Operations write only memory they allocated. A constraint error handed up by a child was
+// allocated during the operation, so prepending a path segment to it is a write to fresh memory.
+// ---------------------------------------------------------------------------------------------
+
+//@ interface Type.Serialize(this, data) -> res, err
+//@   ensures err == nil && typeOf(res) == type(map[string]any) ==> fresh(res.(map[string]any))
+//@ interface Type.Unserialize(this, data) -> res, err
+//@   ensures err == nil && typeOf(res) == type(map[string]any) ==> fresh(res.(map[string]any))
+//@ func ObjectSchema.serializeMap(o, data) -> res, err
+//@   ensures err == nil ==> typeOf(res) == type(map[string]any) && fresh(res.(map[string]any))
+//@ func ObjectSchema.serializeStruct(o, data) -> res, err
+//@   ensures err == nil ==> typeOf(res) == type(map[string]any) && fresh(res.(map[string]any))
+//@ func ObjectSchema.convertData(o, v) -> rawData, err
+//@   ensures err == nil ==> fresh(rawData)
+//@ func ObjectSchema.unserializeInlinedDataToMap(o, data) -> res, err
+//@   ensures err == nil ==> fresh(res)
+//@ func AnySchema.checkAndConvert(a, data) -> res, err
+//@   ensures err == nil ==> typeOf(res) != type(map[string]any)
+//@ func ObjectSchema.Unserialize(o, data) -> result, err
+//@   ensures err == nil && typeOf(result) == type(map[string]any) ==> fresh(result.(map[string]any))
+//@ func ObjectSchema.applySubObjectDefaultValues(o, propertyID, property, rawData)
+//@   assigns rawData
+//@ func UnitsDefinition.getSortedMultipliersCache(u) -> res
+//@   loop 1 invariant multipliers == nil || fresh(multipliers)
+//@ func UnitsDefinition.updateReCache(u)
